@@ -1,0 +1,3 @@
+//go:build !verif
+
+package api
